@@ -204,6 +204,18 @@ CHECKS = {
         note='Selections are lists of names (selector forms are C10). One genuine defect repaired (iterable source named like an existing resource after a delete).',
         technique='TLA+ definitions with id accounting model-checked with TLC; every exported case (incl. >1000-row resources) replayed on the real processors',
         design='6/C16', specs=['ProcResources.tla']),
+    'C20': dict(
+        level='model_checking',
+        text='Sql.tla models the table over a history of dumps and the writer as implemented (bloom-filter seen set, insert buffer flushed '
+             'before an UPDATE / beyond the batch size / at the end, UPDATE ... WHERE key); TLC checks after every dump ModeOK (rewrite: '
+             'exactly the dumped rows; append: previous ++ dumped; update: one row per key with the latest values), Downstream, '
+             'FlagsTruthful, NeverFlagsOutsideUpdate for all histories of <=2 dumps x <=2 rows x 3 modes x bloom on/off x batch {1,1000} '
+             '(255 844 states; thorough adds 1500 simulated behaviours with up to 5 dumps x 3 rows x batch {1,2,1000}). Every exported '
+             'history (quick: 3000 seeded) is replayed against a fresh on-disk SQLite file with an array and an object column, update keys '
+             'explicit or from the primary key: SELECT * after each dump, the rows delivered downstream and the updated flags must be the model\'s.',
+        note='Preconditions: non-null keys, update starts from one row per key, append without a unique constraint. Known finding: array/object cells continue downstream as JSON text on sqlite.',
+        technique='TLA+ history model of the SQL writer checked with TLC (+ simulation); every exported history replayed against SQLite',
+        design='6/C20', specs=['Sql.tla']),
 }
 
 NOT_YET = 'check not built yet (build in progress, see DESIGN.md section 10)'
